@@ -30,6 +30,12 @@ CLAIMS = {
         'frames show the order setting and the source are untouched (order changes affect only later values). Array writers: length*sizeof(T) bytes, bounded to 3 elements.',
    note=TB + 'write()/read() are ghost wire stubs (the real ones are Array<byte>::append, fwrite/fread, send/recv). Host little-endian. Strings and File::operator>>(String&) not covered.',
    technique='CBMC code contracts (DFCC) per template instantiation, ghost-index byte specification'),
+ 'C19': dict(level='proof', design='6 C19',
+   text='For EVERY day of years 0001..9999 (one symbolic day number): yearFromTime returns the Gregorian year containing it, the month search and weekday formula of calc() give the unique '
+        'year/month/day/weekday, construct() of valid fields is 86400 s times the day number they denote (so fields -> instant -> fields is the identity at day granularity), the floating '
+        'macro timeFromYearAsDays equals the integer day count. ISO parser: every read inside the text for ANY string, fraction loop terminates, numeric zone offsets shift the instant by the stated offset.',
+   note=TB + 'Not decided: hour/minute/second extraction in calc() (floating fract), the floating entry floor(t/86400) of yearFromTime, formatting (printf), the HTTP-date branch (split/Map), local time, the custom-format constructor.',
+   technique='CBMC code contracts (DFCC) over a symbolic day number; loop contract for the parser'),
  'C15': dict(level='proof', design='6 C15',
    text='encodeBase64 proved against an RFC 4648 specification macro for every input up to 4096 bytes (10^6 in the thorough tier) with a loop contract; '
         'more units are added as they are built.',
